@@ -155,7 +155,10 @@ def oracle_single(case, rec):
     for lay in ('(n,1)', '(n,1,1)'):
         if not same(outs['(n,)'], outs[lay]):
             raise Violation('C19/%s/layout-changes-result/%s' % (name, lay), '')
-    for lay, X in (('(n,2)', np.c_[x, x[::-1]]), ('(1,n)', x[None, :]), ('(n,2,3)', np.tile(x[:, None, None], (1, 2, 3)))):
+    for lay, X in (('(n,2)', np.c_[x, x[::-1]]), ('(1,n)', x[None, :]), ('(n,2,3)', np.tile(x[:, None, None], (1, 2, 3))),
+                   # the same with singleton dimensions added: still one sample of n columns / two columns
+                   ('(1,n,1)', x[None, :, None]), ('(1,1,n)', x[None, None, :]), ('(n,2,1)', np.c_[x, x[::-1]][:, :, None]),
+                   ('(n,1,2)', np.c_[x, x[::-1]][:, None, :])):
         try:
             out = f(X.copy(), copy.deepcopy(OPTS))
         except Exception:
@@ -517,7 +520,7 @@ CLAUSES = [
     Clause('C19.reuse', oracle_reuse, strategy=reuse_case(), quick=960, thorough=20000, shards=(8, 16),
            nt_rule='every evaluated (routine, signal pair)'),
     Clause('C19.single', oracle_single, strategy=sig_case(SINGLE), quick=640, thorough=8000, shards=(16, 16),
-           nt_rule='3 accepted layouts compared and 3 rejected layouts tried'),
+           nt_rule='3 accepted layouts compared and 7 rejected layouts tried'),
     Clause('C19.vector', oracle_vector, strategy=sig_case(VECTOR), quick=720, thorough=12000, shards=(8, 16),
            nt_rule='>= 2 accepted layouts compared'),
     Clause('C19.lengths', oracle_lengths, strategy=sig_case(LENGTHS), quick=700, thorough=12000, shards=(8, 16),
